@@ -5,6 +5,8 @@ from .. import conds
 from .common import *
 from .c06 import find_lag_handler
 
+CRATES = (IM,)
+
 META = {
     "explanation": (
         "Static decision on MIR: R08.1 every None (end of stream) produced in the two subscriber streams and in the lag handler is tied to a `Closed` edge "
